@@ -19,6 +19,15 @@ USE_MOCK_KEYS=true (harness/c13).
     recorded behaviour; decides) then strict (= the specification's prediction
     for the abstract datagram; DRIFT only).
 
+ 5. a second key regime (no USE_MOCK_KEYS): per-(server ISD-AS, client ISD-AS, server
+    host, client host) keys served by a DRKey daemon of the harness to the real
+    fetcher of a real listener loop (server.VerifRunSCIONServer) and of the real
+    client. ScionAuth.tla models the listener's key cache (per client ISD-AS,
+    revalidated by epoch and metadata); TLC checks the property section on
+    sequences of requests (ScionAuth_genkeys*.cfg, _keysdeep), rejects the variant
+    without the server-host comparison (ScionAuth_f_keycache.cfg) and enumerates the
+    sequences that harness/c13 TestC13Keys replays.
+
 VERIF_C13_CORRUPT=<kind> corrupts one recorded field before validation (negative
 control of the binding): reply_port | reply_path | reply_to | reply_auth |
 served_badmac | fwd_payload | cli_accept.
@@ -33,8 +42,9 @@ FAULTS = {
     "noPortSwap": "ReplyAddressing", "noAddrSwap": "ReplyAddressing", "noReverse": "ReplyAddressing",
     "replyToSrc": "ReplyAddressing", "echoPayload": "ReplyAddressing",
     "fwdOnSrvPort": "ForwardRule", "fwdBackToEh": "ForwardRule", "fwdPayload": "ForwardRule",
+    "keycache": "MacSound",
 }
-QUICK_FAULTS = ["srvIgnoreMac", "replyNoAuth", "replyToSrc", "fwdBackToEh"]
+QUICK_FAULTS = ["srvIgnoreMac", "replyNoAuth", "replyToSrc", "fwdBackToEh", "keycache"]
 FLIPS = ["macFlip", "covHdr", "covPath", "covPld", "tsFlip", "rsvFlip", "uncovFlip", "spiFlip", "algoFlip"]
 CLAUSE = {"TMacSoundReq": "MacSound request", "TMacSoundResp": "MacSound response",
           "TAuthReply": "AuthReplyVerifies reply", "TAuthReplyClient": "AuthReplyVerifies client",
@@ -80,6 +90,8 @@ def _sig(inv, r):
     q = r["q"]
     if r["k"] == "stray":
         return "C13 %s mode=%s at=%s" % (c, r["mode"], q["to"])
+    if r["k"] == "key":
+        return "C13 %s key-regime ak=%s cache=%s" % (c, r["ak"], "refetched" if r["fetches"] else "reused")
     if inv in ("TMacSoundReq", "TMacSoundResp", "TAuthReplyClient"):
         s = "C13 %s %s ak=%s" % (c, r["k"], r["ak"])
         if r["k"] == "e2e":
@@ -152,6 +164,12 @@ def run(ctx):
                                 allow_violation=True, tag="faithful"))
     jobs.append(lambda: ctx.tlc("ScionAuthMC", "ScionAuth_faithful_auth.cfg", timeout=300, workers=1,
                                 allow_violation=True, tag="faithful_auth"))
+    # key regime: sequences at one listener (exhaustive and generator in one run)
+    jobs.append(lambda: ctx.tlc("ScionAuthMC", "ScionAuth_genkeys.cfg", workers=1, timeout=600, tag="genkeys"))
+    jobs.append(lambda: ctx.tlc("ScionAuthMC", "ScionAuth_genkeys3.cfg", workers=1, timeout=600, tag="genkeys3"))
+    if not q:
+        jobs.append(lambda: ctx.tlc("ScionAuthMC", "ScionAuth_keysdeep.cfg", workers=6, timeout=900, tag="keysdeep"))
+    nk = 2 if q else 3
     # 2. spec -> code: the cases
     jobs.append(lambda: ctx.tlc("ScionAuthMC", "ScionAuth_gen.cfg", workers=1, timeout=600, tag="gen"))
     res = _par(jobs)
@@ -169,6 +187,10 @@ def run(ctx):
                      "header): TLC finds ReplyAddressing and AuthReplyVerifies violated for one-hop request paths; the "
                      "repaired model (KeepPathType = FALSE) satisfies all clauses; what the real code does is decided "
                      "by the monitor on the recorded replies")
+    kres = res[-1 - nk:-1]
+    seqs = ctx.emitted(kres[0]["out"], marker="SEQ") + ctx.emitted(kres[1]["out"], marker="SEQ")
+    if len(seqs) < 4000:
+        raise vlib.Inconclusive("key-sequence generators produced only %d sequences" % len(seqs))
     gen = ctx.emitted(res[-1]["out"])
     e2e = ctx.emitted(res[-1]["out"], marker="E2E")
     if len(gen) < 15000 or len(e2e) < 300:
@@ -197,12 +219,40 @@ def run(ctx):
     cp = ctx.path("cases.ndjson")
     vlib.write_ndjson(cp, cases)
     # 3. the real listeners and the real client
-    tp, out = ctx.godriver("c13", "TestC13", cases=cp, timeout=1800, env={"USE_MOCK_KEYS": "true"}, extra=("-v",))
+    tp, out = ctx.godriver("c13", "^TestC13$", cases=cp, timeout=1800, env={"USE_MOCK_KEYS": "true"}, extra=("-v",))
     m = re.search(r"C13 records=(\d+) req=(\d+) e2e=(\d+) stray=(\d+) lost=(\d+) aborted=(\d+)", out)
     if not m:
         raise vlib.Inconclusive("driver summary line missing:\n" + out[-1500:])
     nrec, nreq, ne2e, nstray, lost, aborted = map(int, m.groups())
     recs = vlib.read_ndjson(tp)
+    # 3b. key regime: sequences at a listener with a real fetcher, real client with a real fetcher
+    kc = [dict(s, t="seq", rm="-") for s in seqs]
+    if q:
+        exp = [c for c in kc if any(st["exp"] for st in c["steps"])]
+        noexp = [c for c in kc if not any(st["exp"] for st in c["steps"])]
+        rng.shuffle(exp)
+        rng.shuffle(noexp)
+        hit = [c for c in noexp if any(st["asked"] and not st["fetch"] for st in c["steps"])]
+        kc = [c for c in noexp if len(c["steps"]) == 1] + hit[:400] + noexp[:400] + exp[:150]
+    kc += [dict(t="e2e", steps=[], rm=r) for r in ("pass", "macFlip")] * (15 if q else 100)
+    rng.shuffle(kc)
+    kcp = ctx.path("kcases.ndjson")
+    vlib.write_ndjson(kcp, kc)
+    ktp, kout = ctx.godriver("c13", "^TestC13Keys$", out_name="ktrace.ndjson", cases=kcp, timeout=1800,
+                             env={"USE_MOCK_KEYS": ""}, extra=("-v",))
+    m = re.search(r"C13K records=(\d+) seq=(\d+) e2e=(\d+) lost=(\d+) aborted=(\d+)", kout)
+    if not m:
+        raise vlib.Inconclusive("key-regime driver summary line missing:\n" + kout[-1500:])
+    knrec, knseq, kne2e, klost, kaborted = map(int, m.groups())
+    krecs = vlib.read_ndjson(ktp)
+    ctx.log("key regime: %d sequences (%d steps) + %d end-to-end exchanges; served %d, dropped %d, daemon asked %d times, "
+            "%d without sentinel" % (knseq, sum(1 for r in krecs if r["k"] == "key"), kne2e,
+                                     sum(1 for r in krecs if r["k"] == "key" and r["outs"]),
+                                     sum(1 for r in krecs if r["k"] == "key" and not r["outs"]),
+                                     sum(r["fetches"] for r in krecs), klost))
+    recs += krecs
+    lost += klost
+    aborted += kaborted
     acts = {}
     for r in recs:
         if r["k"] != "stray":
@@ -252,7 +302,11 @@ def run(ctx):
             "TracerouteReply": acts.get("TracerouteReply", 0), "Forward": acts.get("Forward", 0),
             "authenticated reply": sum(1 for r in recs if _obs_act(r) == "ServeNtp" and r["outs"][0]["auth"] != "absent"),
             "request with wrong MAC": sum(1 for r in recs if r["k"] != "stray" and r["expected"] and not r["macok"]),
-            "client verified": clis["verified"], "client rejected": clis["reject"]}
+            "client verified": clis["verified"], "client rejected": clis["reject"],
+            "key regime: served": sum(1 for r in krecs if r["k"] == "key" and r["outs"]),
+            "key regime: request under another pair's key": sum(1 for r in krecs if r["k"] == "key" and not r["macok"]),
+            "key regime: cached key reused": sum(1 for r in krecs if r["k"] == "key" and r["sn"] and not r["fetches"]),
+            "key regime: client verified": sum(1 for r in krecs if r["k"] == "e2e" and r["cli"] == "verified")}
     missing = [k for k, v in need.items() if v == 0]
     if not ctx.violations and (aborted or lost > 24 or missing):
         raise vlib.Inconclusive("the recorded behaviour does not exercise the property (aborted=%d, cases without "
@@ -277,8 +331,10 @@ def run(ctx):
               "real server's response", ),
         outcomes=dict(listener=acts, client=clis), samples=samples, exhaustive=not q)
     ctx.assumptions += [
-        "USE_MOCK_KEYS=true: the host-to-host DRKey is the all-zero key on both sides (DRKey derivation against a "
-        "control service and AES-CMAC strength are outside)",
+        "two key regimes: USE_MOCK_KEYS=true (all-zero key on both sides; all crafted and tampering cases) and keys "
+        "that are a hash-based function of (protocol, server ISD-AS, client ISD-AS, server host) + scionproto's "
+        "host-host derivation, served by a DRKey daemon of the harness to the real fetchers (key-mismatch and cache "
+        "sequences); a real control service and AES-CMAC strength are outside",
         "'MAC verifies over the received packet' is decided by scionproto's spao.ComputeAuthCMAC on the bytes as "
         "they arrived (what the option covers is the library's definition, transcribed in ScionAuth.tla!Covered)",
         "MacSound on the response side is claimed for a client that has authentication enabled; a client without it "
@@ -295,6 +351,8 @@ def _brief(r):
     if r is None:
         return "?"
     keep = {k: r[k] for k in ("k", "id", "sub", "mode", "ak", "hasauth", "expected", "macok", "sn", "outs")}
+    if r["k"] == "key":
+        keep.update({k: r[k] for k in ("seq", "step", "fetches", "wfetch", "wexp", "wact")})
     keep["q"] = r["q"]
     if r["k"] == "e2e":
         keep.update({k: r[k] for k in ("cauth", "rm", "rsub", "delivered", "rhasauth", "rexpected", "rmacok", "cli", "clierr")})
